@@ -424,6 +424,36 @@ func (e *fdEngine) Generate(seed uint64, tier string, run int) (json.RawMessage,
 			}
 		}
 	}
+	if rk.Chance(0.01) {
+		// structure-aware adversarial plan: the FDSelect of a CID-keyed CFF font (glyph ranges -> font
+		// dict) with one to three of its fields rewritten together: the sentinel, a range's first
+		// glyph, a range's font dict index (bound, bound - 1, 255)
+		name := kernel.Pick(rf, []string{"hb:harfbuzz_reference/in-house/fonts/7e14e7883ed152baa158b80e207b66114c823a8b.ttf", "hb:harfbuzz_reference/text-rendering-tests/fonts/FDArrayTest65535.otf",
+			"hb:harfbuzz_reference/in-house/fonts/6991b13ce889466be6de3f66e891de2bc0f117ee.ttf", "hb:harfbuzz_reference/in-house/fonts/4cbbc461be066fccc611dcc634af6e8cb2705537.ttf"})
+		pimg := corpus.Bytes(name)
+		if fs, ok := faultdisk.CFFFDSelect3(pimg); ok {
+			c.Font = name
+			c.Bytes = nil
+			glyphAt := func() int {
+				return kernel.Pick(rf, []int{0, 1, rf.Intn(min(fs.Glyphs, 30) + 1), rf.Intn(fs.Glyphs + 1), fs.Glyphs - 1, fs.Glyphs, fs.Glyphs + 1})
+			}
+			for i := rf.Range(1, 3); i > 0; i-- {
+				ri := rf.Intn(len(fs.Ranges))
+				if rf.Chance(0.6) {
+					ri = rf.Intn(min(len(fs.Ranges), 30))
+				}
+				switch rf.Intn(3) {
+				case 0:
+					c.Bytes = append(c.Bytes, ByteFault{Kind: "set16", Off: fs.Sentinel, Val: uint32(glyphAt()), Aim: "CFF:fdselect sentinel"})
+				case 1:
+					c.Bytes = append(c.Bytes, ByteFault{Kind: "set16", Off: fs.Ranges[ri], Val: uint32(glyphAt()), Aim: fmt.Sprintf("CFF:fdselect range %d first", ri)})
+				default:
+					c.Bytes = append(c.Bytes, ByteFault{Kind: "bytes", Off: fs.Ranges[ri] + 2, Data: []byte{byte(kernel.Pick(rf, []int{fs.NumFD, fs.NumFD - 1, 255, fs.NumFD + 1}))}, Aim: fmt.Sprintf("CFF:fdselect range %d fd", ri)})
+				}
+			}
+			return json.Marshal(c)
+		}
+	}
 	if rk.Chance(0.012) {
 		// structure-aware adversarial plan: the packed point numbers of a glyph's variation data
 		// rewritten in place (same length) so that the running sum leaves the glyph or wraps
@@ -598,7 +628,13 @@ func genGraft(rf *kernel.Rand, name string) (ByteFault, bool) {
 	if !ok {
 		return ByteFault{}, false
 	}
-	switch m := rf.Intn(5); {
+	switch m := rf.Intn(6); {
+	case m == 5:
+		// 'kern' format 3 (class pairs through an index array): every array is in range except one
+		// element, set to its bound (one past the end), its bound minus one, or 255
+		dims := [4]int{rf.Range(2, 8), rf.Range(1, 4), rf.Range(1, 4), rf.Range(1, 4)} // glyphs, values, left classes, right classes
+		which, at, how := rf.Intn(3), rf.Intn(64), rf.Intn(3)
+		return ByteFault{Kind: "graft", Tag: "kern", Data: faultdisk.SynthKern3(dims, which, at, how, rf.Bool()), Aim: fmt.Sprintf("kern:format 3 %v, array %d element %d variant %d", dims, which, at, how)}, true
 	case m == 4 && has["GPOS"]:
 		se := kernel.Pick(rf, [][2]int{{0, 0xFFFF}, {0, 0xFFFE}, {1, 0xFFFF}, {16, 16}, {17, 16}, {0, 15}})
 		return ByteFault{Kind: "graft", Tag: "GPOS", Data: faultdisk.SynthGPOSDevice(int(gid), se[0], se[1], rf.Range(1, 3)), Aim: fmt.Sprintf("GPOS:device table sizes %d-%d", se[0], se[1])}, true
@@ -1238,6 +1274,26 @@ func batteryPhased(f *font.Face, seed uint64, out *kernel.Outcome, onShaping fun
 	d := f.Describe()
 	fmt.Fprintf(&sb, " desc=%q,%v", d.Family, d.Aspect)
 	out.Count("op.metrics_names", 1)
+	// pair kerning through the public subtables ('kern' and 'kerx'), whatever the shaper would use
+	for _, kx := range []font.Kernx{f.Kern, f.Kerx} {
+		for si, st := range kx {
+			kp, ok := st.Data.(interface {
+				KernPair(left, right font.GID) int16
+			})
+			if !ok || si >= 8 {
+				continue
+			}
+			var sum int
+			pg := append([]font.GID{0, 1, 2, 3, 4, 5, 6, 7, 8, 0xFFFF}, gids[:min(6, len(gids))]...)
+			for _, l := range pg {
+				for _, rr := range pg {
+					sum += int(kp.KernPair(l, rr))
+				}
+			}
+			fmt.Fprintf(&sb, " kp%d=%d", si, sum)
+			out.Count("op.kern_pairs", 1)
+		}
+	}
 
 	// variations and ppem, then a few queries again
 	f.SetVariations([]font.Variation{{Tag: ot.MustNewTag("wght"), Value: 900}, {Tag: ot.MustNewTag("wdth"), Value: 50}})
